@@ -296,7 +296,9 @@ def typedefOverlay (env : Env) (root : Mod) (td tt : Stmt) (ty : YType) : Res :=
 
 /-- Extension substatements of a statement (`Exts()`): the builder files a substatement whose
 keyword is not a field of the node and has exactly one colon under `Extensions`. -/
-def extsOf (t : Stmt) : List Stmt := t.subs.filter fun s => (s.kw.splitOn ":").length == 2
+def extsOf (t : Stmt) : List Stmt :=
+  -- `len(strings.Split(ss.Keyword, ":")) == 2`: exactly one colon
+  t.subs.filter fun s => (s.kw.toList.filter (· == ':')).length == 1
 
 /-- Go: `MatchingExtensions(t, "openconfig-extensions", "posix-pattern")`; `none` = the error
 "module prefix not found". -/
